@@ -191,10 +191,9 @@ def craftedMut : List Bytes :=
                                     p.take 8191, p.take 100, p ++ p.take 8191, [], p.take 8190 ++ [0x80]]
   a ++ b ++ c
 
-def idxmutGen (seed idx size : Nat) : Case :=
-  let file : Bytes :=
-    if idx < craftedMut.length then craftedMut.getD idx []
-    else
+def mutFile (seed idx size : Nat) : Bytes :=
+  if idx < craftedMut.length then craftedMut.getD idx []
+  else
       (do let am := amOf idx
           let n ← Gen.range 1 (max size 1)
           let f ← Gen.Index.genFile am n
@@ -204,10 +203,23 @@ def idxmutGen (seed idx size : Nat) : Case :=
           let fields := [(base + 12, 2), (base + 14, 2), (base + 16, 2), (base + 16, 2), (base + 16, 2), (base + 24, 4),
                          (base + 8190, 2), (base + 8188, 2), (base + 8186, 2), (16, 2), (8190, 2), (8188, 2)]
           Gen.mutate fields (1 + size) bytes).run' (Prng.ofSeed seed idx)
+
+def idxmutGen (seed idx size : Nat) : Case :=
+  let file := mutFile seed idx size
   let m := okOrPanic (Model.Index.parseIndexFile file)
   { tags := [if m == "ok" then "model=ok" else "model=fault", "nt"], model := m, spec := "ok", args := [hexRle file] }
 
 def idxmut : Family := { name := "idxmut", gen := idxmutGen, eval := evalMut, fixed := craftedMut.length }
+
+/-! ### idxmal (C18, correspondence only): the same malformed files, whole report compared with the model; the spec is silent -/
+
+def idxmalGen (seed idx size : Nat) : Case :=
+  let file := mutFile seed idx size
+  let m := showM showInfoM (Model.Index.parseIndexFile file)
+  let t := (m.splitOn ":").getD 1 "?"
+  { tags := ["type=" ++ (if m == "ERR" then "ERR" else t), "nt"], model := m, spec := "-", args := [hexRle file] }
+
+def idxmal : Family := { name := "idxmal", gen := idxmalGen, eval := evalFile, fixed := craftedMut.length }
 
 end Idx
 
